@@ -37,13 +37,16 @@ Definition text_of (msg : str) : str :=
 (** RFC822.SIZE: len(msg) *)
 Definition size_of (msg : str) : nat := length msg.
 
-(** partial <o.n> as coded for numeric sections and for BODY[TEXT]:
-      if o < len(p) { e := o+n; if e > len(p) { e = len(p) }; p = p[o:e] } else { p = "" } *)
+(** partial <o.n>: slicePartial(data, start, length) (fetch.go, since 2d014e0;
+    both slicing sites call it).  start and length are unsigned here: a range
+    with a minus sign is answered BAD before any message is processed.
+      if start >= len(data) { return "" }
+      if length > len(data)-start { length = len(data)-start }
+      return data[start : start+length] *)
 Definition partial_cut (p : str) (o n : nat) : str :=
-  if o <? length p
-  then let e := if length p <? o + n then length p else o + n in
-       firstn (e - o) (skipn o p)
-  else [].
+  if length p <=? o then []
+  else let n' := if length p - o <? n then length p - o else n in
+       firstn n' (skipn o p).
 
 (** ---- the part table ---- *)
 
@@ -234,5 +237,14 @@ Definition announced_leaf (strip : str -> str) (r : row) : str * str * nat :=
 
 (** a message that is not multipart (BuildBodyStructure, single-part branch):
     the size is that of rawMsg[headerEnd+4:] *)
+Definition single_body (raw : str) : str :=
+  match index raw sep4 with
+  | Some i => skipn (i + 4) raw
+  | None => match index raw [LF; LF] with
+            | Some i => skipn (i + 2) raw      (* bare LF: separator of 2 (3b9f4c2) *)
+            | None => []
+            end
+  end.
+
 Definition announced_single (raw : str) (r : row) : str * str * nat :=
-  (to_upper (rct r), announced_enc (renc r), length (text_of raw)).
+  (to_upper (rct r), announced_enc (renc r), length (single_body raw)).
